@@ -2,7 +2,6 @@ package identity
 
 import (
 	"fmt"
-	"math"
 	"math/big"
 	"sort"
 
@@ -124,7 +123,11 @@ func (vs *ValidatorStore) ExecuteAllegationTracker(ctx *ValidatorContext, active
 		return err
 	}
 
-	requiredVotesCount := int(math.Ceil(float64(activeCount) * float64(options.ValidatorVotePercentage) / float64(options.ValidatorVoteDecimals)))
+	if options.ValidatorVoteDecimals <= 0 || options.AllegationDecimals <= 0 {
+		return fmt.Errorf("Evidence options without decimals")
+	}
+	// ceil(activeCount * share), in integers
+	requiredVotesCount := int((activeCount*options.ValidatorVotePercentage + options.ValidatorVoteDecimals - 1) / options.ValidatorVoteDecimals)
 
 	popt, err := ctx.Govern.GetProposalOptions()
 	if err != nil {
@@ -174,13 +177,15 @@ func (vs *ValidatorStore) ExecuteAllegationTracker(ctx *ValidatorContext, active
 			}
 		}
 
-		yesP := float64(yesCount) / float64(requiredVotesCount)
-		noP := float64(noCount) / float64(requiredVotesCount)
-		percentage := float64(options.AllegationPercentage) / float64(options.AllegationDecimals)
+		// guilty: yes/required > share; innocent: no/required > 1 - share. Compared in integers:
+		// in float64 1 - share is not exact (80/100 acquitted at exactly 20 %)
+		required := int64(requiredVotesCount)
+		guilty := int64(yesCount)*options.AllegationDecimals > options.AllegationPercentage*required
+		innocent := int64(noCount)*options.AllegationDecimals > (options.AllegationDecimals-options.AllegationPercentage)*required
 		arToUpdate := false
 
 		logger.Detailf("Request ID: %s, yes votes count: %d, no votes count: %d, total count: %d \n", requestID, yesCount, noCount, requiredVotesCount)
-		if yesP > percentage {
+		if guilty {
 			decisionMade = true
 			ar.Status = evidence.GUILTY
 			sv, err := ctx.EvidenceStore.CreateSuspiciousValidator(
@@ -267,7 +272,7 @@ func (vs *ValidatorStore) ExecuteAllegationTracker(ctx *ValidatorContext, active
 				logger.Errorf("Failed to update postponed: %s\n", err)
 				continue
 			}
-		} else if noP > 1-percentage {
+		} else if innocent {
 			decisionMade = true
 			//processedValidators[ar.MaliciousAddress.Humanize()] = true
 			ar.Status = evidence.INNOCENT
